@@ -42,8 +42,13 @@ def read_battery(prop, db, stored, cfg, vocab, counters, filters=(None, "m", "n"
     out = []
     seen_sig = set()
 
+    cur = {"keys": None}
+
     def bad(oracle, served, readop, ast, m, observed, expected):
-        sig = f"{prop}|{served}|{readop}|shape={qast.shape(ast)}|filter={'y' if m else 'n'}"
+        sig = f"{prop}|{served}|{readop}|shape={qast.shape(ast)}|filter={'y' if m is not None else 'n'}"
+        if m == "" and _val(observed) == _unfiltered_read(readop, ast, stored, cur["keys"]):
+            # the empty string as a measurement name is treated as "no filter" (known finding H21): one signature
+            sig = f"{prop}|empty-measurement-name-treated-as-no-filter|reads"
         if sig in seen_sig:
             return
         seen_sig.add(sig)
@@ -95,6 +100,7 @@ def read_battery(prop, db, stored, cfg, vocab, counters, filters=(None, "m", "n"
             nreads += 5
             if m in select_filters:
                 for keys in SELECT_KEYS:
+                    cur["keys"] = keys
                     r = call(obj.select, keys, q, *margs)
                     e = refmodel.select_keys(stored, keys, ast, m)
                     if r != ("ret", e):
@@ -102,6 +108,28 @@ def read_battery(prop, db, stored, cfg, vocab, counters, filters=(None, "m", "n"
                     nreads += 1
     counters["observer_reads"] += nreads
     return out
+
+
+def _val(observed):
+    return observed[1] if isinstance(observed, tuple) and len(observed) == 2 and observed[0] == "ret" else observed
+
+
+def _unfiltered_read(readop, ast, stored, keys):
+    """What the read would answer if the measurement filter were ignored."""
+    sel = [stored[i] for i in refmodel.select(stored, refmodel.q_pred(ast), None)]
+    if readop == "search":
+        return sorted(sel, key=lambda rp: rp[0])
+    if readop == "search_unsorted":
+        return sel
+    if readop == "count":
+        return len(sel)
+    if readop == "contains":
+        return bool(sel)
+    if readop == "get":
+        return sel[0] if sel else None
+    if readop == "select":
+        return refmodel.select_keys(stored, keys, ast, None)
+    return object()
 
 
 TAGKEY_SELECTIONS = [[], ["a"], ["b"], ["a", "zz"]]
@@ -113,9 +141,27 @@ def getter_battery(prop, db, stored, cfg, counters, filters=(None, "m", "n", "zz
     out = []
     seen = set()
 
+    cur = {"arg": None}
+
+    def unfiltered(name):
+        n = name[2:] if name.startswith("h.") else name
+        if n == "len":
+            return len(stored)
+        if n in ("iter", "all_unsorted"):
+            return stored
+        if n == "all_sorted":
+            return sorted(stored, key=lambda rp: rp[0])
+        if n in ("get_tag_keys", "get_field_keys", "get_timestamps"):
+            return getattr(refmodel, n)(stored, None)
+        if n in ("get_tag_values", "get_field_values"):
+            return getattr(refmodel, n)(stored, cur["arg"], None)
+        return object()
+
     def bad(name, m, observed, expected, extra=""):
         served = served_by(db, cfg)
-        sig = f"{prop}|{served}|{name}|filter={'y' if m else 'n'}{extra}"
+        sig = f"{prop}|{served}|{name}|filter={'y' if m is not None else 'n'}{extra}"
+        if m == "" and _val(observed) == unfiltered(name):
+            sig = f"{prop}|empty-measurement-name-treated-as-no-filter|getters"
         if sig in seen:
             return
         seen.add(sig)
@@ -154,11 +200,13 @@ def getter_battery(prop, db, stored, cfg, counters, filters=(None, "m", "n", "zz
         if r != ("ret", e):
             bad("get_field_keys", m, r, e)
         for ks in TAGKEY_SELECTIONS:
+            cur["arg"] = ks
             r = call(db.get_tag_values, list(ks), *margs)
             e = refmodel.get_tag_values(stored, ks, m)
             if r != ("ret", e):
                 bad("get_tag_values", m, r, e, extra=f"|keys={len(ks)}")
         for k in FIELD_KEYS:
+            cur["arg"] = k
             r = call(db.get_field_values, k, *margs)
             e = refmodel.get_field_values(stored, k, m)
             if r != ("ret", e):
@@ -194,11 +242,13 @@ def getter_battery(prop, db, stored, cfg, counters, filters=(None, "m", "n", "zz
                 if r != ("ret", e):
                     bad("h." + name, m, r, e)
             for ks in TAGKEY_SELECTIONS:
+                cur["arg"] = ks
                 r = call(h.get_tag_values, list(ks))
                 e = refmodel.get_tag_values(stored, ks, m)
                 if r != ("ret", e):
                     bad("h.get_tag_values", m, r, e, extra=f"|keys={len(ks)}")
             for k in FIELD_KEYS:
+                cur["arg"] = k
                 r = call(h.get_field_values, k)
                 e = refmodel.get_field_values(stored, k, m)
                 if r != ("ret", e):
